@@ -7,7 +7,7 @@ import random
 
 from .. import core, inst, tlc, zoo
 from .. import pools as P
-from ..gen import random_heap
+from ..gen import random_heap, _psize
 from ..heap import Slots, World, norm_fn, norm_heap
 
 PID = "C09"
@@ -54,7 +54,7 @@ def make_visitor(W: World, rules: dict, strict: bool, prepared):
             return dataclasses.replace(g)
         f = fs[0]
         a = atom_of(W, c, f, getattr(g, f["n"]))
-        return dataclasses.replace(g, **{f["n"]: W.prop_value(c, f, (a + 1) % 3)})
+        return dataclasses.replace(g, **{f["n"]: W.prop_value(c, f, (a + 1) % min(3, _psize(f)))})
 
     def boom(self, node):
         raise Boom()
